@@ -1167,14 +1167,15 @@ int NinjaMain::ToolRestat(const Options* options, int argc, char* argv[]) {
     Error("loading build log %s: %s", log_path.c_str(), err.c_str());
     return EXIT_FAILURE;
   }
+  if (!err.empty()) {
+    // Hack: Load() can return a warning via err by returning LOAD_SUCCESS
+    // (or LOAD_NOT_FOUND when it discarded a log of an unsupported version).
+    Warning("%s", err.c_str());
+    err.clear();
+  }
   if (status == LOAD_NOT_FOUND) {
     // Nothing to restat, ignore this
     return EXIT_SUCCESS;
-  }
-  if (!err.empty()) {
-    // Hack: Load() can return a warning via err by returning LOAD_SUCCESS.
-    Warning("%s", err.c_str());
-    err.clear();
   }
 
   bool success = build_log_.Restat(log_path, disk_interface_, argc, argv, &err);
